@@ -21,7 +21,16 @@ def run_property(pid, tier, seed, repo=REPO, quiet=False):
     ctx = Ctx(repo, tier)
     rep = Report(pid)
     rep.analysed = ctx.units()
-    mod.run(ctx, rep)
+    try:
+        mod.run(ctx, rep)
+    except AnalysisError as e:
+        # a rule lost its anchor after other rules had already reported violations that are not known findings: those verdicts
+        # stand (exit 1 with the constructs named); only a run that has nothing to report ends as analysis-broken (exit 2)
+        from .core import load_known
+        known = {k["key"] for k in load_known().get("known", []) if k.get("property") == pid}
+        if not [o for o in rep.violations if o.key not in known]:
+            raise
+        rep.note("analysis stopped early (%s); the violations found up to that point are reported" % e)
     meta = dict(getattr(mod, "META", {}))
     meta["checker_cmd"] = "/venv/bin/python -m sa.check %s --tier %s" % (pid, tier)
     if tier == "thorough" and hasattr(mod, "thorough"):
